@@ -343,6 +343,144 @@ def vm_crosscheck(harness, driver, seed, count=16):
     return len(cases), bad
 
 
+# ---------------------------------------------------------------- binary32 tie (coq/SpreadFloat.v, Flocq)
+# fixed "SF" cases: the witnesses of c06_spread_float_refuted / c06_spread_float_above_refuted_small replayed on the C++
+SF_WITNESS_BELOW = "SF 3 2 -117183 -117133 2 0 10 0 0 1 3 0 1 2 1 32044 57 0 4 8 0 4 8"
+SF_WITNESS_ABOVE = "SF 4 2 0 100000 2 0 10 0 0 1 4 0 1 2 3 1994072 1655332 1892993 1 0 4 8 12 0 4 8 12"
+
+
+def spec_bits(tok):
+    """'S754_finite false 8388611 (-2)' etc. (as printed by Coq) -> IEEE-754 binary32 bit pattern"""
+    t = tok.replace("SpecFloat.", "").replace("(", " ").replace(")", " ").split()
+    sign = 1 << 31 if len(t) > 1 and t[1] == "true" else 0
+    if t[0] == "S754_zero":
+        return sign
+    if t[0] == "S754_infinity":
+        return sign | (0xFF << 23)
+    if t[0] == "S754_nan":
+        return None
+    m, e = int(t[2]), int(t[3])
+    if m < (1 << 23):
+        return sign | m if e == -149 else None
+    return sign | ((e + 150) << 23) | (m - (1 << 23))
+
+
+def float_tie(ctx, harness, ev, count):
+    """spreadCoordX/Y of the compiled library against the Flocq binary32 model evaluated inside Coq by vm_compute,
+    bit for bit, on non-dyadic cases.  Returns a dict for the evidence."""
+    import re
+    lines = [SF_WITNESS_BELOW, SF_WITNESS_ABOVE] + common.harness_gen(harness, ["spreadf", ctx.seed + 4242, count])
+    impl, _, _ = common.run_both([harness, "run"], None, lines)
+    cases = []                                   # (line, SC case, [bits])
+    for l, r in zip(lines, impl):
+        s = [x.strip() for x in r.split(" | ")]
+        if len(s) != 4 or not s[0].startswith("SC "):
+            ev.differences.append(("spreadCoord harness run failed (SF case)", l, r[:300]))
+            continue
+        for case, res in ((s[0], s[2]), (s[1], s[3])):
+            cases.append((l, case, [int(x) for x in res.split()]))
+
+    def gal(case, clamped):
+        t = case.split()
+        n, bins, dem = parse_sc(case)
+        tg = t[len(t) - 2 * n:]
+        bs = "; ".join("{| Spread.b_lo := (%d); Spread.b_hi := (%d); Spread.b_cells := [%s] |}"
+                       % (lo, hi, "; ".join("%d%%nat" % c for c in cs)) for lo, hi, cs in bins)
+        return "map B2SF (spread_coord_f %s (%s) (%s) [%s] [%s] [%s])" % (
+            clamped, t[1], t[2], bs, "; ".join("f_of_me (%s) (%s)" % (tg[2 * i], tg[2 * i + 1]) for i in range(n)),
+            "; ".join("(%d)" % d for d in dem))
+    info = {"cases": len(cases), "coordinates_compared_bit_for_bit": 0, "variant": None,
+            "coordinates_outside_their_bin": 0, "witness_below_reproduced": False, "witness_above_reproduced": False,
+            "flags": "harness and library built with g++ -std=gnu++17 -O1, x86-64 SSE scalar arithmetic, no -ffast-math, no -mfma "
+                     "(no contraction): one C++ float operator = one IEEE-754 binary32 operation, round to nearest even"}
+    if not cases:
+        return info
+    exprs = [gal(c, v) for (_, c, _) in cases for v in ("false", "true")]
+    res = common.vm_eval("C06f", "From Coq Require Import List ZArith. From Flocq Require Import Core BinarySingleNaN. "
+                                 "Import ListNotations. Require Import CV.Spread CV.SpreadFloat. Local Open Scope Z_scope.", exprs, timeout=900)
+    if res is None:
+        ev.differences.append(("vm_compute evaluation of the binary32 model (SpreadFloat.spread_coord_f) failed", "-", ""))
+        return info
+    match = {"false": 0, "true": 0}
+    firstbad = {}
+    for k, (l, case, bits) in enumerate(cases):
+        for j, v in enumerate(("false", "true")):
+            toks = re.findall(r"S754_\w+(?:\s+(?:true|false))?(?:\s+\d+\s+\(?-?\d+\)?)?", res[2 * k + j])
+            mod = [spec_bits(x) for x in toks]
+            if mod == bits:
+                match[v] += 1
+            elif v not in firstbad:
+                c = next((i for i in range(min(len(mod), len(bits))) if mod[i] != bits[i]), -1)
+                firstbad[v] = (l, case, "cell %d: C++ bits %s, model bits %s" % (c, bits[c] if c >= 0 else len(bits), mod[c] if c >= 0 else len(mod)))
+        info["coordinates_compared_bit_for_bit"] += len(bits)
+        # the mechanism on the C++ output: a cell of positive demand inside the closed interval of its bin?
+        n, bins, dem = parse_sc(case)
+        import struct
+        for lo, hi, cs in bins:
+            for c in cs:
+                if dem[c] > 0:
+                    v = struct.unpack("<f", struct.pack("<I", bits[c]))[0]
+                    if not (lo <= v <= hi):
+                        info["coordinates_outside_their_bin"] += 1
+                        if l == SF_WITNESS_BELOW and v < lo:
+                            info["witness_below_reproduced"] = True
+                        if l == SF_WITNESS_ABOVE and v > hi:
+                            info["witness_above_reproduced"] = True
+    # the compiled code must be ONE of the two modelled variants on every case: the unrepaired expression (raw) or the
+    # expression clamped into [minCoord, maxCoord] (proposed repair); the witnesses tell them apart
+    if match["false"] == len(cases):
+        info["variant"] = "raw (dem*max + (1-dem)*min unclamped: /repo as it is)"
+    elif match["true"] == len(cases):
+        info["variant"] = "clamped (coordinate clamped into its bin: the proposed repair is in the tree)"
+    else:
+        v = "false" if match["false"] >= match["true"] else "true"
+        l, case, what = firstbad[v]
+        ev.differences.append(("spreadCoordX/Y differs bit for bit from the binary32 model SpreadFloat.spread_coord_f (%d of %d cases equal "
+                               "the unclamped model, %d the clamped one): %s" % (match["false"], len(cases), match["true"], what), l, case[:400]))
+    return info
+
+
+def f21_case(ncells=7720):
+    """finding F21: a sky130-like circuit in database units (rows 2720 high, cells 460 x 2720, 30 rows 140000 wide, default bin
+    size 25: ONE bin): the running sum `dem` of spreadCells exceeds 1 after ~15000 binary32 additions and the last cell of
+    the bin is spread ABOVE the bin: upper-bound placement exposed with a centre 5 units above the rows' bounding box"""
+    H, W, nrows, roww = 2720, 460, 30, 140000
+    rows, cells, nets = [], [], [ncells - 1]
+    for i in range(nrows):
+        rows += [0, roww, i * H, (i + 1) * H, 0 if i % 2 == 0 else 5]
+    for i in range(ncells):
+        cells += [(i * 37) % roww, ((i * 11) % nrows) * H, W, H, 0, 0, 0, 0]
+    for i in range(ncells - 1):
+        nets += [2, i, 0, 0, i + 1, 0, 0, 2]
+    par = [1, 0, 0, 0, 6, 20, 400, 2, 1, 2, 1, 1, 1, 1, 1, 250, 99, 6]
+    return "GP %d %s %d %s %s %s" % (nrows, " ".join(map(str, rows)), ncells, " ".join(map(str, cells)),
+                                     " ".join(map(str, nets)), " ".join(map(str, par)))
+
+
+def f21_replay(ctx, harness, ev, ftie):
+    """runs the F21 circuit through Circuit::placeGlobal (harness only: the statement is evaluated by the harness on every
+    exposed placement).  On a tree without the repair the violation is the known finding F21 as long as known_findings.json
+    lists it as `known`; once it is listed as fixed, the same outcome is a violation again."""
+    case = f21_case()
+    impl, _, _ = common.run_both([harness, "run"], None, [case], timeout=900)
+    s = [x.strip() for x in impl[0].split(" | ")]
+    out = {"cells": 7720, "completed": s[0] == "GP OK", "exposed_outside_rows_bbox": None}
+    if s[0] != "GP OK" or len(s) < 5:
+        ev.violations.append(("global placement did not complete on the F21 circuit: " + impl[0][-120:], case[:300] + " ...", impl[0][:300]))
+        return out
+    out["exposed_outside_rows_bbox"] = s[2] if s[2] != "-" else None
+    raw = bool(ftie.get("variant")) and ftie["variant"].startswith("raw")
+    if s[2] != "-":
+        if s[2].startswith("OUTSIDE") and raw and ctx.known_finding("F21"):
+            return out
+        ev.violations.append(("upper-bound placement exposes a movable cell with its centre outside the rows' bounding box: " + s[2],
+                              "f21_case() of checks/c06.py (7720 cells of 460x2720 in 30 rows of 140000x2720)", s[2]))
+    elif raw and not ctx.known_finding("F21"):
+        ev.differences.append(("spreadCells does not clamp the coordinate into its bin (repair of finding F21 not in this tree) although "
+                               "known_findings.json lists F21 as fixed", "-", ""))
+    return out
+
+
 def gen_cases(ctx, harness):
     lines = common.corpus("C06", ("GP ", "GR ", "SP "))
     ncorpus = len(lines)
@@ -390,6 +528,8 @@ def run(ctx):
     ev = Eval(harness, driver)
     ev.run(lines)
     nvm, vmbad = vm_crosscheck(harness, driver, ctx.seed)
+    ftie = float_tie(ctx, harness, ev, 48)
+    f21 = f21_replay(ctx, harness, ev, ftie)
     for b in vmbad[:1]:
         ev.differences.append(("extracted OCaml model differs from vm_compute inside Coq", "-", b))
     report(ctx, ev, proof_ok, proof, lines)
@@ -406,7 +546,7 @@ def run(ctx):
         "rule": "distinct case lines; non-trivial = GP: >= 2 upper-bound exposures and >= 2 movable cells; SP: some bin with >= 2 cells of "
                 "positive demand; GR: more than one bin in x or y",
         "samples": [gp[0][:400] if gp else "", lines[len(lines) // 2][:400], lines[-1][:400]],
-        "corpus_cases": ncorpus, "vm_compute_crosschecked_cases": nvm, "kinds": {k: ev.stats.get(k, 0) for k in ("GP", "GR", "SP")},
+        "corpus_cases": ncorpus, "vm_compute_crosschecked_cases": nvm, "binary32_tie": ftie, "finding_F21_circuit": f21, "kinds": {k: ev.stats.get(k, 0) for k in ("GP", "GR", "SP")},
         "domain": "rows >= 4 row heights wide, >= 1 movable cell of positive area, clipped capacity > 0 (others SKIPped and counted), "
                   "CG tolerance 1e-1..1e-6, approximation/cutoff distances >= 0.1, all 4 net models, all 6 cost models, line/diag/square "
                   "windows, 1-D transport on/off, 0-3 rough steps, bin size 1-25, export blending -0.5..1.5, default side margin 0.9; "
